@@ -699,6 +699,11 @@ def patches_from_ed_script(
             if c in ('.\n', '.', b'.\n', b'.'):
                 break
             lines.append(c)
+        else:
+            # The text block was not terminated by "." before the end of the
+            # stream (iterating a list or a file never yields the '' sentinel
+            # tested for above).
+            raise ValueError("end of stream in command: %r" % line)
         yield (first, last, lines)
 
 patchesFromEdScript = function_deprecated_by(patches_from_ed_script)
